@@ -1,2 +1,2 @@
-import Hive.Model.Seq
-def main : IO Unit := Hive.Proto.run Hive.Seq.init Hive.Seq.stepLine
+import Hive.Model.SeqConc
+def main : IO Unit := Hive.Proto.run Hive.Seq.init Hive.Seq.Conc.stepLineC
